@@ -260,6 +260,8 @@ class MCMCProp(Prop):
             rng.shuffle(c["node_order"])   # a vertex's id is not its position in G.nodes()
         if i % 7 == 5:
             c["retarget"] = True
+        if i % 9 == 4:
+            c["int_target"] = True
         if i % 4 == 2:
             c["warm_rewire"] = True
         return c
@@ -282,6 +284,8 @@ class MCMCProp(Prop):
             rng.shuffle(c["node_order"])
         if i % 3 == 1:
             c["retarget"] = True
+        if i % 4 == 2:
+            c["int_target"] = True
         return c
 
     # ------------------------------------------------------------------ instrumented run
@@ -296,6 +300,17 @@ class MCMCProp(Prop):
         import copy
         before = copy.deepcopy((node_state(net.G), snapshot(net.G)))     # deep: list annotations may be changed in place
         ejks = {nm: {tuple(k): Ex(v) for k, v in tab} for nm, tab in case["target"]}
+        if case.get("int_target"):
+            # the same target as unnormalised integer counts (a histogram of observed pairings, scaled): the Metropolis ratio does
+            # not depend on the scale
+            import math
+            L = 1
+            for nm, tab in case["target"]:
+                for _, v in tab:
+                    L = L * Fraction(v).denominator // math.gcd(L, Fraction(v).denominator)
+            biggest = max([int(Fraction(v) * L) for nm, tab in case["target"] for _, v in tab] or [1])
+            scale = max(1, 10 ** 8 // max(1, biggest))        # counts of the order of 10^8
+            ejks = {nm: {tuple(k): int(Fraction(v) * L) * scale for k, v in tab} for nm, tab in case["target"]}
         M = JointExcessJointDegreeMatrices({TN.EJKS: ejks, TN.EDGE_NAMES: list(case["names"])})
         params = {TN.NETWORK: net, TN.EJKS: M}
         if case["limits"] is not None:
@@ -326,6 +341,8 @@ class MCMCProp(Prop):
                         return super().on_float(ctx)
                     return (prng.randrange(n) + 0.5) / n if n else 0.0
                 r = Ex(Fraction(prng.randint(0, case["grid"] - 1), case["grid"]))
+                if case.get("int_target"):
+                    r = r + Fraction(1, 1000000007)      # never exactly equal to a ratio of small rationals (float division rounds)
                 budget["last_r"] = r
                 return r
         sem = R()
